@@ -100,6 +100,13 @@ pub trait Prop: Sync {
     fn nontrivial(&self, case: &str) -> bool {
         case.len() > 8
     }
+    /// A corpus line (a minimised historical failure) as it should be run today: case lines that carry
+    /// something MEASURED from the implementation (C07/C11: the write_all chunks of the in-memory build) are
+    /// brought up to date, so that a harmless change of how the builder chunks its writes does not turn the
+    /// committed witnesses into self-check failures.
+    fn refresh_corpus_line(&self, line: &str) -> String {
+        line.to_string()
+    }
     /// Extra whole-run measurements (memory, binaries …); returns (name, ok, detail) records.
     fn extras(&self, _tier: Tier, _rng: &mut Rng, _stats: &mut Stats) -> Vec<(String, bool, String)> {
         vec![]
